@@ -33,6 +33,8 @@ pub struct Ctx {
     pub tape: Tape,
     pub tier: Tier,
     pub scenario: &'static str,
+    /// index of this run within the check (enumerating scenarios derive their case from it)
+    pub run_index: u64,
     pub violation: Option<Violation>,
     pub nontrivial: bool,
     pub faults: BTreeMap<&'static str, u64>,
@@ -50,6 +52,7 @@ impl Ctx {
             tape,
             tier,
             scenario,
+            run_index: 0,
             violation: None,
             nontrivial: false,
             faults: BTreeMap::new(),
@@ -206,6 +209,7 @@ pub fn execute(spec: &'static CheckSpec, scenario: &'static Scenario, tier: Tier
                 None => Tape::generate(Prng::derive(seed, &format!("tape:{id}"), run)),
             };
             let mut ctx = Ctx::new(t, tier, scenario.name);
+            ctx.run_index = run;
             let r = std::panic::catch_unwind(std::panic::AssertUnwindSafe(|| (scenario.run)(&mut ctx)));
             let panic_msg = take_panic();
             if let Some(m) = panic_msg {
